@@ -826,6 +826,34 @@ class _Run:
         self.write(st, root, path, result)
         return t["target"]
 
+    def any_as_contains(self, it, clo):
+        """contains(list, y) for iter(list).any(closure) when the closure is `|x| x == y` with y captured"""
+        src = it
+        while tag(src) in ("unwrap",):
+            src = kids(src)[0]
+        if not (tag(src) == "call" and str(payload(src)[0]).split("::")[-1] == "iter" and len(kids(src)) == 1):
+            return None
+        cf = self.world.by_pretty.get(payload(clo)[0])
+        if cf is None or cf.arg_count != 2:
+            return None
+        try:
+            cps = [p for p in self.ev.paths(cf) if p.exit == "return"]
+        except TooManyPaths:
+            return None
+        if len(cps) != 1:
+            return None
+        r = cps[0].ret
+        if not (tag(r) == "op" and payload(r)[0] == "eq" and len(kids(r)) == 2):
+            return None
+        envp = sym.param(cf.key, 0, cf.param_name(0))
+        argp = sym.param(cf.key, 1, cf.param_name(1))
+        a, b = kids(r)
+        for x, y in ((a, b), (b, a)):
+            if x == argp and tag(y) == "field" and kids(y)[0] == envp:
+                cap = sym.subst(y, {envp: clo})
+                return sym.call("core::slice::<impl [T]>::contains", [kids(src)[0], cap], "", 0)
+        return None
+
     def closure_target(self, f):
         if tag(f) == "closure":
             return self.world.by_pretty.get(payload(f)[0])
@@ -918,6 +946,11 @@ class _Run:
                     return sym.op("is_zero", a0)
                 if nm == "u128":
                     return a0
+            if name == "std::iter::Iterator::any" and len(args) == 2 and tag(args[1]) == "closure":
+                # `list.iter().any(|x| *x == y)` is the membership test `list.contains(&y)`
+                m_ = self.any_as_contains(args[0], args[1])
+                if m_ is not None:
+                    return m_
             if name in PURE_LIB:
                 return sym.op(PURE_LIB[name], *args)
             if name == "std::boxed::Box::new_uninit":
